@@ -319,6 +319,11 @@ func resyncTask(inst *Instance, withSync bool) {
 	core.CallNow(core.Req{Op: "w.resynced", A: []string{msg}})
 }
 
+func syncOnlyTask(inst *Instance) {
+	inst.plugin.VerifSyncPodIPs()
+	core.CallNow(core.Req{Op: "w.resynced", A: []string{""}})
+}
+
 func reloadTask(inst *Instance) {
 	ok, err := inst.plugin.VerifUpdateConfigMap()
 	msg := ""
